@@ -333,13 +333,14 @@ Definition render (f : rung_fmt) (s : Z) : list byte :=
   | RFix p d u => fixed_text p (div_double (to_double s) d) ++ u
   end.
 
-(* x < num/den for den > 0 *)
-Fixpoint select (x : Z) (l : list (option (Z * Z) * rung_fmt)) : rung_fmt :=
+(* the ladder: OnInt tests the integer s, OnDouble tests n = double(s); x < num/den for den > 0 *)
+Fixpoint select (s : Z) (l : list (rung_test * rung_fmt)) : rung_fmt :=
   match l with
   | [] => RInt
-  | (Some (num, den), f) :: r => if x * den <? num then f else select x r
-  | (None, f) :: _ => f
+  | (OnInt num den, f) :: r => if s * den <? num then f else select s r
+  | (OnDouble num den, f) :: r => if to_double s * den <? num then f else select s r
+  | (Else, f) :: _ => f
   end.
 
 Definition formatSI (s : Z) : list byte := render (select s si_ladder) s.
-Definition formatIEC (s : Z) : list byte := render (select (to_double s) iec_ladder) s.
+Definition formatIEC (s : Z) : list byte := render (select s iec_ladder) s.
